@@ -579,8 +579,54 @@ class Suite:
             rec(ok); return
         raise e2.Refuse('unknown lemma kind ' + kind)
 
+    # ------------------------------------------------------------------ small helper kernels used by the decisions
+    def helper_kernels(self):
+        sess = self.sess
+        sx = S.sx
+        # infinity_norm: flat_map over rows, map |x mod+- q|, max
+        E, paths = skel.extract(self.funcs, 'infinity_norm')
+        names = [skel.short_callee(c['callee']) for p in paths for c in p.calls]
+        ok = len(paths) == 1 and any(n.endswith('Iterator>::max') for n in names) and any(n.endswith('flat_map') for n in names) and any(n.endswith('>::map') for n in names)
+        self.ob('infinity_norm: max over all coefficients of all rows of the per-coefficient map', ['C02', 'C03', 'C01'], ok, str(names)[:200])
+        nm = 'infinity_norm::{closure#1}'
+        if nm in self.funcs:
+            Eb = e2.Exec(self.funcs, mode='bv')
+            x = e2.Val(z3.BitVec('x', 32), 'i32')
+            res, obl = Eb.run(nm, [None, x])
+            out = merged(Eb, res)
+            pre = z3.And(x.t > -2 * Q, x.t < 2 * Q)
+            m = S.mod_pm(sx(x.t), Q)
+            ok = sess.discharge_obligations('infinity_norm element map', obl, pre)
+            ok &= sess.discharge('infinity_norm element map: |x mod+- q| for every |x| < 2q', sx(out.t) != z3.If(m < 0, -m, m), pre=pre, fn=nm) == 'unsat'
+            self.ob('infinity_norm: element map is |x mod+- q| [' + nm + ']', ['C02', 'C03', 'C01'], ok, '')
+            self.run.functions.append('MIR ' + nm)
+        else:
+            self.refused('infinity_norm element map', ['C02', 'C03'], 'closure not found')
+        # add_vector_ntt: coefficient-wise sum
+        nm = 'add_vector_ntt::{closure#0}::{closure#0}'
+        if nm in self.funcs:
+            Eb = e2.Exec(self.funcs, mode='bv', params={'K': 8})
+            n = e2.Val(z3.BitVec('n', 64), 'usize')
+            res, obl = Eb.run(nm, [None, n])
+            out = merged(Eb, res)
+            ins = {}
+            for k, v in Eb.inputs.items():
+                if isinstance(v, (e2.Ref, e2.Opaque)) or v.ty != 'i32':
+                    continue
+                mm = re.match(r'^(\w+)[\.\[]', k)
+                ins[mm.group(1) if mm else k] = v.t
+            pre = [z3.ULT(n.t, 256)] + [v.t == 0 for k, v in Eb.inputs.items() if isinstance(v, e2.Val) and not isinstance(v, (e2.Ref, e2.Opaque)) and v.ty == 'usize' and not k.startswith('param:')]
+            a, b = ins.get('v_hat'), ins.get('w_hat')
+            ok = a is not None and b is not None
+            if ok:
+                p = z3.And(*pre, a >= 0, a < Q, b >= -(Q // 2) - 1, b <= Q // 2 + 1)
+                ok &= sess.discharge_obligations('add_vector_ntt element', obl, p)
+                ok &= sess.discharge('add_vector_ntt element: v + w', out.t != a + b, pre=p, fn=nm) == 'unsat'
+            self.ob('add_vector_ntt: coefficient-wise sum without overflow for a canonical and a centred operand [' + nm + ']', ['C04', 'C11', 'C13'], ok, '')
+            self.run.functions.append('MIR ' + nm)
+
     def run_all(self):
-        for fn in (self.verify_internal, self.sign_internal, self.key_gen_internal, self.private_to_public_key, self.expand_keys, self.into_bytes):
+        for fn in (self.verify_internal, self.sign_internal, self.key_gen_internal, self.private_to_public_key, self.expand_keys, self.into_bytes, self.helper_kernels):
             try:
                 fn()
             except e2.Refuse as e:
